@@ -98,7 +98,7 @@ def rule_grammar(ctx):
     cnt = [i[0] for i in items if i[1] == 'read_from']
     okb = bool(cnt) and 'collect(map(Range::Range{start: 0, end: read_from#%s(self)?.value}, closure:{closure#0}))?' % cnt[0] in ret
     ctx.check('grammar', 'branch-hashes-bound-by-count', okb, mb, 'hashes = (0..count).map(read_256hash)')
-    cl = prog.one('BlockchainRead::read_merkle_branch::{closure#0}')
+    cl = util.only_closure(prog, mb)
     ctx.touch(cl)
     cr = [c for c in cl.calls if wire.is_read(c)]
     ctx.check('grammar', 'branch-item=h32', len(cr) == 1 and mir.method_name(cr[0].name) == 'read_256hash' and cl.loop_depth(cr[0].bb) == 0, cl, 'each branch item is one 32-byte hash')
